@@ -101,7 +101,7 @@ class Prop(PropBase):
                 dual = rng.random() < 0.3
                 if l.mech:
                     ms = scen.MechStream(rng, l, dual=dual)
-                    good_d = l.difop(dual=dual)
+                    good_d = l.difop(dual=dual, rpm=rng.choice([600, 0, 1, 30, 59, 60, 61, 65535]))      # also rpm values whose rounds per second are 0
                     mk = lambda: ms.msop(noise=rng.random() < 0.3, bpv4=(t == 'RSBP' and rng.random() < 0.3), model=(rng.choice([0, 1, 2, 3, 2, 3, 4, 0x10, 0x80, 0xff]) if t == 'RSP80' else rng.choice([0, 2, 3])))
                 else:
                     st = {'seq': rng.choice([0, 1, 65530])}
